@@ -6,6 +6,14 @@
    that every request is answered with data or an error and that the process stays alive.   *)
 EXTENDS RecFile
 
+\* Named deviations (layer 1 switches, TRUE = the code shows the deviation; cfg defaults = current tree):
+\*   DevTimescaleZeroExits (declared in RecFile)  C28-F1, fixed in 3adcf73
+CONSTANTS
+    DevNilTrafBoxExits,       \* C28-F2 (fixed in cc06103): tfhd/tfdt missing or after trun in the first traf
+                              \* of the first moof made segmentFMP4MuxParts dereference nil
+    DevSampleSizeUnbounded    \* C28-F3 (known): a buffer of the declared sample size is allocated before
+                              \* reading; 0xFFFFFFFF aborts the process under the 3 GiB limit
+
 \* ---------------------------------------------------------------- C28: structural corruption shapes
 \* The box tree of a segment as the recorder writes it, for a file with two tracks and two parts.
 \* Shapes are enumerated here (CorruptShapes, ForeignKinds, NodeKinds); the only requirement is
@@ -71,6 +79,26 @@ EmitShapes ==
       /\ \A sh \in StructShapes : ValidStructShape(sh) => \A nb \in Neighbours : Emit("SHAPE", [sh |-> sh, nb |-> nb])
       /\ \A fk \in ForeignKinds : \A nb \in Neighbours :
             Emit("SHAPE", [sh |-> [kind |-> "foreign", what |-> fk], nb |-> nb])
+
+\* ---------------------------------------------------------------- layer 1: what the code does with a shape
+\* shapes after which the mvhd timescale reads 0 (Unmarshal is given whatever box follows the moov header)
+TimescaleZeroShape(sh) ==
+    \/ (sh.kind = "field" /\ sh.box = "mvhd" /\ sh.field = "timescale" /\ sh.val = "zero")
+    \/ (sh.kind = "drop" /\ sh.parent = "moov" /\ sh.a = 1)
+    \/ (sh.kind = "swap" /\ sh.parent = "moov" /\ sh.a = 1 /\ sh.b \in {2, 3})
+\* shapes that leave trun (or tfdt) of the very first traf without its predecessors
+NilTrafShape(sh) ==
+    /\ sh.kind \in {"drop", "swap"} /\ sh.parent = "traf" /\ sh.site = "p1t1"
+    /\ (sh.kind = "drop" => sh.a \in {1, 2})
+SampleSizeMaxShape(sh) == sh.kind = "field" /\ sh.box = "trun" /\ sh.field = "samplesize" /\ sh.val = "max"
+L1Exits(sh, server) ==
+    /\ server = "playback"
+    /\ \/ (DevTimescaleZeroExits /\ TimescaleZeroShape(sh))
+       \/ (DevNilTrafBoxExits /\ NilTrafShape(sh))
+       \/ (DevSampleSizeUnbounded /\ SampleSizeMaxShape(sh))
+\* foreign files /list takes for a segment: ftyp + a moov mediacommon accepts, and a duration in the
+\* header or at least one part - a header-only file of a closed segment and a plain MP4 qualify
+L1ListedAsSegment(what) == what \in {"plainmp4", "headeronly", "symlink_good", "unreadable"}
 
 \* C28 layer 2: "answer with data or an error and never crash the server process"
 Answered(r) == r.status \in 200..599
